@@ -69,8 +69,22 @@ fn arg<'a>(args: &'a [String], name: &str) -> Option<&'a str> {
     args.iter().position(|a| a == name).and_then(|i| args.get(i + 1)).map(|s| s.as_str())
 }
 
+/// a logger that accepts everything and discards it: with it installed at Trace level the library's log statements are evaluated
+/// (their arguments are computed), as they are in an application that has logging switched on
+struct Sink;
+impl log::Log for Sink {
+    fn enabled(&self, _: &log::Metadata) -> bool { true }
+    fn log(&self, r: &log::Record) { let _ = format!("{}", r.args()); }
+    fn flush(&self) {}
+}
+static SINK: Sink = Sink;
+
 fn main() {
     let args: Vec<String> = std::env::args().collect();
+    if std::env::var("DLTV_NO_LOG").is_err() {
+        let _ = log::set_logger(&SINK);
+        log::set_max_level(log::LevelFilter::Trace);
+    }
     std::panic::set_hook(Box::new(|_| {})); // a panic in the code under test is data, not noise
     let seed: u64 = arg(&args, "--seed").map(|s| s.parse().expect("seed")).unwrap_or(1);
     let n: usize = arg(&args, "--n").map(|s| s.parse().expect("n")).unwrap_or(100);
